@@ -40,6 +40,7 @@ let () =
     | "ptr" -> run_ptr
     | "cmp" -> run_cmp
     | "ctor" -> run_ctor
+    | "serde" -> run_serde
     | _ -> (prerr_endline ("unknown stream " ^ stream); exit 2) in
   let ic = open_in Sys.argv.(2) in
   (try
